@@ -1,11 +1,11 @@
 SPEC = dict(
     props_file="C11",
     legs=[dict(family="countmin", focus="codec", oracles=["prop_roundtrip"], profiles=["debug", "release"], n_quick=150, n_thorough=1500)],
-    level_text="Theorems (Props/C11.v): per family, deserialize(serialize(s)) = Ok s for every well-formed state and every reachable "
+    level_text="Theorems (Props/C11.v and its parts Props/C11_<family>.v): per family, deserialize(serialize(s)) = Ok s for every well-formed state and every reachable "
                "state is well-formed (so queries, re-serialization and all further behaviour coincide). Tie: model bytes = crate bytes, and "
                "a twin oracle on the crate alone: after forking a sketch through serialize/deserialize every subsequent operation "
                "applied to both copies must give identical observations.",
-    level_note="Families covered so far are listed in Props/C11.v; see DESIGN.md section 5 (C11) for those still missing.",
+    level_note="Props/C11.v holds the Count-Min statements; every other family is a part (Props/C11_<family>.v); the families covered and NOT covered are listed at the end of this note.",
     technique="Coq round-trip theorems over byte-level codec models + differential twin testing of the crate",
     trusted=["codec models written by hand from the Rust writers/readers; tied by byte-for-byte comparison of serialize() output"],
     assumptions=[],
